@@ -327,6 +327,7 @@ def prove(hyps, goal, timeout_ms=10000, rounds=3, want_model=False):
         return {'status': st, 'backend': 'z3-qf', 'secs': time.time() - t0, 'n_inst': 0,
                 'model': str(s.model()) if r == z3.sat else None}
     model = None
+    inst_verdict = None
     try:
         nf = nnf_skolem(forms)
         inst = Inst(nf, rounds=rounds)
@@ -334,24 +335,28 @@ def prove(hyps, goal, timeout_ms=10000, rounds=3, want_model=False):
         n_inst = inst.n_inst
         if r == 'unsat':
             return {'status': 'proved', 'backend': 'inst+z3-qf', 'secs': time.time() - t0, 'n_inst': n_inst, 'model': None}
+        inst_verdict = r
         if m is not None:
             model = str(m)
     except Exception as e:  # normalisation outside the fragment: fall through to the native engines
         n_inst = -1
         model = 'instantiation-not-applicable: %s' % e
     # fall-back 1: z3's own quantifier engine
+    fb = min(timeout_ms, 8000)
     s = z3.Solver()
-    s.set('timeout', timeout_ms)
+    s.set('timeout', fb)
     s.set('random_seed', 0)
     s.add(forms)
     r = s.check()
     if r == z3.unsat:
         return {'status': 'proved', 'backend': 'z3-quant', 'secs': time.time() - t0, 'n_inst': n_inst, 'model': None}
     # fall-back 2: cvc5
-    r2 = cvc5_check(s.to_smt2(), timeout_ms)
+    r2 = cvc5_check(s.to_smt2(), fb)
     if r2 == 'unsat':
         return {'status': 'proved', 'backend': 'cvc5', 'secs': time.time() - t0, 'n_inst': n_inst, 'model': None}
-    return {'status': 'failed' if r == z3.sat else 'unknown', 'backend': 'none', 'secs': time.time() - t0, 'n_inst': n_inst,
+    # 'failed' = not proved with a candidate model: the saturated instance set is satisfiable (never a verdict by itself:
+    # the driver replays / searches before reporting).  Solver timeouts stay 'unknown'.
+    return {'status': 'failed' if (r == z3.sat or inst_verdict == 'sat') else 'unknown', 'backend': 'none', 'secs': time.time() - t0, 'n_inst': n_inst,
             'model': model}
 
 
